@@ -286,7 +286,9 @@ def _mesh_store_values(chk, pid):
                        f"_n={v.show(t)[:120]}; expected round(edges/cell) as int", v.f, s)
                 for cond, key in (("not all((i > 0 for i in cell))", "cell-positive"),
                                   ("df.Region(p1=self.region.pmin, p2=self.region.pmin + cell) not in self.region", "cell-fits"),
-                                  ("np.logical_and(np.greater(rem, tol), np.less(rem, np.subtract(cell, tol))).any()", "divisible")):
+                                  ("np.logical_and(np.greater(np.remainder(self.region.edges, cell), np.min(cell) * 1e-3), "
+                                   "np.less(np.remainder(self.region.edges, cell), np.subtract(cell, np.min(cell) * 1e-3))).any()",
+                                   "divisible")):
                     okg, det = v.guard(cond, exc=("ValueError",), before=s)
                     chk.ob(f"mesh.Mesh.__init__::store::_n::from-cell::{key}", okg, f"{pid}.D1", det, v.f, s)
             else:
